@@ -2,6 +2,7 @@
 #include <utility>
 #include <string>
 #include <stdexcept>
+#include <limits>
 
 namespace OP2Utility::Archive
 {
@@ -89,6 +90,12 @@ namespace OP2Utility::Archive
 	void AdaptiveHuffmanTree::UpdateCodeCount(NodeData code)
 	{
 		VerifyNodeDataInBounds(code);
+
+		// The root holds the sum of all counts. Refuse the update that would overflow the counters,
+		// which would break the count ordering the tree restructuring relies on
+		if (subtreeCount[rootNodeIndex] == std::numeric_limits<NodeType>::max()) {
+			throw std::runtime_error("AdaptiveHuffmanTree cannot record more updates without overflowing its counters");
+		}
 
 		// Get the index of the node containing this code
 		NodeIndex curNodeIndex = parentIndex[code + nodeCount];
